@@ -2397,16 +2397,30 @@ class op(object):
             len(equalities) <= 1:
             v = variables[0]
 
-            if lin_ineqs: G = lin_ineqs[0]._f._linear._coeff[v]
+            # the coefficient matrices and right-hand sides must have
+            # their full sizes (no scalar coefficients or constants)
+            def _full(f):
+                cf = f._linear._coeff.get(v)
+                return cf is not None and cf.size == (len(f), len(v)) \
+                    and len(f._constant) == len(f)
+
+            inform = _full(objective) and \
+                (not lin_ineqs or _full(lin_ineqs[0]._f)) and \
+                (not equalities or _full(equalities[0]._f))
+
+            if inform and lin_ineqs: 
+                G = lin_ineqs[0]._f._linear._coeff[v]
             else: G = None
 
-            if equalities: A = equalities[0]._f._linear._coeff[v]
+            if inform and equalities: 
+                A = equalities[0]._f._linear._coeff[v]
             else: A = None
 
-            if (format == 'dense' and (G is None or _isdmatrix(G)) and 
+            if inform and ((format == 'dense' and 
+                (G is None or _isdmatrix(G)) and 
                 (A is None or _isdmatrix(A))) or \
                 (format == 'sparse' and (G is None or _isspmatrix(G)) 
-                and (A is None or _isspmatrix(A))):  
+                and (A is None or _isspmatrix(A)))):  
                 return None
 
 
